@@ -8,6 +8,7 @@ import (
 	"crypto/x509"
 	"errors"
 	"fmt"
+	"net"
 	"sort"
 	"strings"
 
@@ -44,6 +45,7 @@ type c15Plan struct {
 	optLen    int
 	optSpare  int
 	acceptors int
+	unixLike  bool // connections are accepted on a unix socket: every peer has the same (empty) remote address
 	base      bool // the application configured its own TLS server configuration (plain TLS clients are served by it)
 	clients   []*c15Client
 }
@@ -154,6 +156,7 @@ func c15Run(r *kernel.Run, plan *c15Plan, concurrent bool, tag string) ([]c15Out
 		baseCfg = &tls.Config{Certificates: []tls.Certificate{bc}, NextProtos: []string{"h2", "http/1.1"}}
 	}
 	w := NewWire(r, srv, baseCfg, options)
+	w.Net.UnixLike = plan.unixLike
 	// per-client network faults: keyed by the dialing goroutine's name, so that the same client meets the same fault
 	// whether it runs alone or among the others
 	faultOf := map[string]*c15Client{}
@@ -240,7 +243,7 @@ func c15Run(r *kernel.Run, plan *c15Plan, concurrent bool, tag string) ([]c15Out
 			}
 			if x.c.kind == "base-tls" {
 				// no marker to go by (the client may offer nothing): the connection is identified by its peer address
-				if a.raw.RemoteAddr().String() != fmt.Sprintf("%s-c%d", tag, x.c.idx) {
+				if simPeerOf(a.raw) != fmt.Sprintf("%s-c%d", tag, x.c.idx) {
 					continue
 				}
 				o.ServerConn = true
@@ -310,6 +313,7 @@ func propC15(r *kernel.Run) {
 	tp := r.Tape
 	plan := &c15Plan{backend: Pick2(tp, "inmem", "storeonce"), sw: tp.Draw(2) == 0, loader: tp.Draw(3) == 0,
 		optLen: tp.Draw(13), optSpare: tp.Draw(9), acceptors: tp.Range(2, r.Deep(4, 6)), base: tp.Draw(3) == 0}
+	plan.unixLike = tp.Draw(3) == 0
 	n := tp.Range(2, r.Deep(6, 9))
 	var kinds []string
 	for i := 0; i < n; i++ {
@@ -358,6 +362,21 @@ func propC15(r *kernel.Run) {
 	if r.Index%100 == 0 {
 		r.SetSample(map[string]any{"clients": kinds, "option_slice_len": plan.optLen, "option_slice_spare_capacity": plan.optSpare, "acceptors": plan.acceptors, "sequential_outcomes": seq})
 	}
+}
+
+// simPeerOf unwraps TLS layers down to the simulated connection and names the actor at its other end.
+func simPeerOf(c net.Conn) string {
+	for i := 0; i < 4 && c != nil; i++ {
+		if sc, ok := c.(*simnet.Conn); ok {
+			return sc.Peer2()
+		}
+		u, ok := c.(interface{ NetConn() net.Conn })
+		if !ok {
+			break
+		}
+		c = u.NetConn()
+	}
+	return ""
 }
 
 func c15DiffField(a, b c15Outcome) string {
